@@ -12,6 +12,8 @@ from engine.twins import TwinSpec, project, first_difference, count_events
 from engine.util import own_nodes, calls_with_nodes, where, optional_numeric_params, truthiness_uses
 
 RULES = {
+    "R-18.11": "connecting is part of the exchange and is bounded like it: every backend.make_socket(..., SOCK_STREAM, ...) of dns.asyncquery passes a timeout (6th argument) - without it the asynchronous connect to a server that black-holes TCP never ends, while the synchronous twin gives up at the deadline",
+    "R-18.10": "adopted from C07: a reply is matched to its query by comparing question RRsets, i.e. Rdataset/RRset.__eq__ - name, class, type (R-07.11)",
     "R-18.9": "a transfer message is read under the EARLIER of its per-message deadline and the transfer's lifetime: in both _inbound_xfr twins the clamp replaces mexpiration by expiration exactly when mexpiration is None or later than expiration",
     "R-18.8": "the header fields is_response compares are extracted whole: opcode.from_flags inverts opcode.to_flags for all sixteen opcodes whatever the other flag bits are (evaluated by the checker on the two return expressions), so opcodes 8..15 do not alias 0..7; and every dns.asyncquery function has the parameter defaults of its dns.query twin, an option only the async side has defaulting to its 'off' value (False/None/0)",
     "R-18.7": "backend sockets take a RELATIVE timeout: every timeout argument handed to an async socket method (sendall/recv/sendto/recvfrom) in dns/asyncquery.py is `_timeout(<expiration>)` or a local computed from it - never the absolute expiration itself (a timestamp read as seconds never expires)",
@@ -403,12 +405,35 @@ def run(model, rep, tier):
                       f"`{src(c)[:70]}` hands `{src(a)}` to the socket as its timeout: that is an absolute expiration (seconds since the epoch), so a blocked write/read effectively never times out "
                       "whatever the lifetime", stmt=f"relative-timeout {c.func.attr}")
     rep.floor("R-18.7", n_rel, 6)
+    rep.share(model, "C07", {"R-07.11"}, "R-18.10", "Message.is_response() tests `n in other.question` for every question RRset: membership is RRset.__eq__; a question of another class must not match")
+    # ---------------------------------------------------------------- R-18.11
+    n11 = 0
+    for f11 in sorted(model.all_functions(), key=lambda g: g.qualname):
+        if f11.module.name != "dns.asyncquery":
+            continue
+        for c11 in ast.walk(f11.node):
+            if not (isinstance(c11, ast.Call) and isinstance(c11.func, ast.Attribute) and c11.func.attr == "make_socket"):
+                continue
+            stype = c11.args[1] if len(c11.args) > 1 else next((k.value for k in c11.keywords if k.arg == "socktype"), None)
+            if stype is None or not src(stype).endswith("SOCK_STREAM"):
+                continue
+            n11 += 1
+            tmo = c11.args[5] if len(c11.args) > 5 else next((k.value for k in c11.keywords if k.arg == "timeout"), None)
+            okk = tmo is not None and not (isinstance(tmo, ast.Constant) and tmo.value is None)
+            rep.check(okk, "R-18.11", f11.qualname, where(f11, c11), f"the stream connect is bounded by `{src(tmo) if tmo is not None else ''}`",
+                      f"`{src(c11)[:80]}` passes no timeout: the connect waits for ever on a server that drops TCP SYNs - the exchange outlives its timeout and a resolution its lifetime (no failover, no LifetimeTimeout)",
+                      stmt="connect-timeout")
+    rep.floor("R-18.11", n11, 3)
     rep.meta["explanation"] = (
         "Path-feasibility argument for 'nothing returned unchecked' (each returning path becomes infeasible when is_response is assumed false, under each value of ignore_errors), "
         "event projection and comparison of 11 sync/async twin pairs, and loop-shape rules for stream framing. Behaviour under every datagram sequence and stream split is NOT enumerated.")
 
 
 WITNESSES = [
+    {"id": "c18-async-tcp-connect-unbounded", "rule": "R-18.11", "file": "dns/asyncquery.py", "expect": "fires",
+     "old": "            af, socket.SOCK_STREAM, 0, stuple, dtuple, timeout\n        )", "new": "            af, socket.SOCK_STREAM, 0, stuple, dtuple\n        )"},
+    {"id": "c18-twin-async-tcp-connect-keyword", "rule": "R-18.11", "file": "dns/asyncquery.py", "expect": "silent",
+     "old": "            af, socket.SOCK_STREAM, 0, stuple, dtuple, timeout\n        )", "new": "            af, socket.SOCK_STREAM, 0, stuple, dtuple, timeout=timeout\n        )"},
     {"id": "c18-xfr-clamp-takes-later-deadline", "rule": "R-18.9", "file": "dns/query.py", "expect": "fires",
      "old": "                expiration is not None and mexpiration > expiration", "new": "                expiration is not None and mexpiration < expiration", "count": 1},
     {"id": "c18-opcode-from-flags-three-bits", "rule": "R-18.8", "file": "dns/opcode.py", "expect": "fires",
